@@ -98,7 +98,15 @@ template <class D> struct W2 : public VATA::MTBDDPkg::VoidApply2Functor<W2<D>, t
 	std::set<unsigned> seen;
 	void ApplyOperation(const typename D::T& a, const typename D::T& b) { seen.insert(D::enc(a) * 8 + D::enc(b)); } };
 
-inline SymbolicVarAsgn mkAsgn(const std::string& w) { return SymbolicVarAsgn(w == "-" ? std::string() : w); }
+// an assignment is built from its text; every second one that ends in don't-cares is instead built from the text without them and then
+// widened in place with AddVariablesUpTo (the two ways must denote the same assignment)
+inline SymbolicVarAsgn mkAsgn(const std::string& w) {
+	static unsigned long calls = 0; ++calls;
+	std::string s = (w == "-" ? std::string() : w);
+	size_t k = s.size(); while (k > 0 && s[k - 1] == 'X') --k;
+	if (k < s.size() && k > 0 && (calls % 2 == 0)) { SymbolicVarAsgn a(s.substr(0, k)); a.AddVariablesUpTo(s.size() - 1); return a; }
+	return SymbolicVarAsgn(s);
+}
 
 // the t-th assignment over n variables in base `base` (2: total assignments, 3: with don't-care), variable i = digit i
 inline std::string nthAsgn(unsigned long t, unsigned n, unsigned base) {
